@@ -49,13 +49,16 @@ class WeightedAverage(Contract):
         a["invalid_weight"] = lambda k: vsum(k, lambda i: If(valid(i), 0, w[i]))
         a["valid_mass"] = lambda k: vsum(k, lambda i: If(valid(i), p[i] * w[i], 0))
         a["valid_count"] = lambda k: vsum(k, lambda i: If(valid(i), 1, 0))
+        a["all_weight"] = lambda k: vsum(k, lambda i: w[i])
 
         def invariant(view, k):
             k = V(k)
             mean = V(view.mean_value)
             rej, non = V(view.rejected_weighting_sum), V(view.non_rejected_weighting_sum)
             inv = [rej == a["invalid_weight"](k), non == a["valid_weight"](k), mean == a["valid_mass"](k),
-                   rej >= 0, non >= 0, lo * non <= mean, mean <= hi * non]
+                   rej >= 0, non >= 0, lo * non <= mean, mean <= hi * non,
+                   # every weight seen so far went to exactly one of the two sums
+                   rej + non == a["all_weight"](k)]
             nv = view.get("N_valid_percentages")
             if nv is not None:
                 nv = V(nv)
